@@ -62,7 +62,7 @@ func runOne(c *Case) (r resultT) {
 	}()
 	r.ref = runRef(c)
 	r.impl = runImpl(c)
-	if c.Dir == "s2h" || c.Dir == "h2s" {
+	if c.Dir == "s2h" || c.Dir == "h2s" || c.Dir == "retain" {
 		r.twin = runTwin(c)
 	}
 	return r
@@ -74,6 +74,8 @@ func nontrivial(c *Case) bool {
 		return c.VT.Kind != KBasic
 	case "meth":
 		return len(c.Args) > 0
+	case "retain":
+		return true
 	}
 	if len(c.Sig.In)+len(c.Sig.Out) < 2 {
 		return false
